@@ -165,6 +165,10 @@ def rule_sort_callsigs(check, rule):
                         key=key, witness='a call bind_callsig rejects must land in invalid')
 
 
+def lits_text_(lits):
+    return ' & '.join(show_lit(l) for l in lits)
+
+
 def rule_bind_callsig(check, rule):
     """table B15"""
     repo = check.repo
@@ -185,7 +189,7 @@ def rule_bind_callsig(check, rule):
     pos_loop = kw_loop = fill_loop = None
     for e in loops.values():
         t = show(e.target)
-        if 'zip' in t and 'enumerate' in t:
+        if e.target[0] == 'C' and str(e.target[1]).split('.')[-1] in ('zip', 'izip'):
             pos_loop = e
         elif e.target[0] == 'M' and e.target[1] == kwp and e.target[2] == 'items':
             kw_loop = e
@@ -254,13 +258,33 @@ def rule_bind_callsig(check, rule):
     surplus = [p for p in paths if any(a[0] == 'broke' and not pol for a, pol in p.lits)]
     key = 'bind_callsig|surplus'
     ok = False
+    sentinel = None
+    other = None
     for p in surplus:
+        raises = p.status == 'raise' and str(it._exc_name(p.value)) == 'TypeError'
         for a, pol in p.lits:
             if a[0] == 'eq' and any(isinstance(x, tuple) and x[0] == 'SL' for x in a[1:]):
-                if (not pol) and p.status == 'raise' and str(it._exc_name(p.value)) == 'TypeError':
+                if (not pol) and raises:
                     ok = True
+            elif a[0] == 'is' and raises and not pol and any(x == ('C', 'object', (), ()) for x in a[1:]) and \
+                    any(isinstance(x, tuple) and x[0] == 'N' and mentions(x, argsp) for x in a[1:]):
+                # `next(<iterator over the arguments>, <fresh object()>) is not <that object>`: no argument can be that object
+                ok = True
+            elif a[0] == 'exhausted' and raises and not pol:
+                # `next(<iterator over the arguments>, None) is not None`: None is a legitimate argument value
+                sentinel = (p, a)
+            elif a[0] in ('cmp', 'is', 'isnone', 'truthy') and raises and a is p.lits[-1][0]:
+                other = (p, a)
     if ok:
         check.holds(rule, st, 'surplus positional arguments -> TypeError', key=key)
+    elif sentinel is not None:
+        node = [e for e in sentinel[0].effects if e.kind == 'raise'][-1].node
+        check.violation(rule, site_of(fi, node), 'surplus positional arguments are detected by fetching the next one with None as the "nothing left" '
+                        'marker (%s): a surplus argument whose value is None goes unnoticed' % show_lit((sentinel[1], False))[:80], key=key,
+                        witness="bind_callsig(s('a'), (1, None), {}) must raise TypeError")
+    elif other is not None:
+        node = [e for e in other[0].effects if e.kind == 'raise'][-1].node
+        check.inconclusive(rule, site_of(fi, node), 'surplus test not understood: %s' % lits_text_(other[0].lits)[:160], key=key)
     else:
         check.violation(rule, st, 'surplus positional arguments are not rejected with TypeError', key=key, witness="bind_callsig(s('a'), (1, 2), {})")
     # ---- keyword binding
